@@ -7,11 +7,36 @@ from interp import bool_s, mk_int, concrete_int, last_type_name
 from models_core import some, NONE, opt_sym, ok, err, deref_all, variant_of
 
 
+_arc_ids = [0]
+
+
+class ArcIte(Model):
+    """if-then-else over two Arcs of different representation"""
+
+    def __init__(self, c, a, b):
+        self.c, self.a, self.b = c, a, b
+
+    @property
+    def tok(self):
+        return z3.If(self.c, self.a.tok, self.b.tok)
+
+    def deref_loc(self, ip):
+        return Loc(Cell(ite_val(self.c, read_loc(self.a.deref_loc(ip)), read_loc(self.b.deref_loc(ip))), 'arc-ite'))
+
+    def ite(self, c, other):
+        return ArcIte(c, self, other)
+
+    def eq(self, other):
+        return self.tok == other.tok
+
+
 class ArcCell(Model):
     """Arc/Box/Rc pointing at one concrete heap cell"""
 
     def __init__(self, cell):
         self.cell = cell
+        _arc_ids[0] += 1
+        self.tok = z3.IntVal(-1000000000 - _arc_ids[0])
 
     def deref_loc(self, ip):
         return Loc(self.cell)
@@ -20,9 +45,9 @@ class ArcCell(Model):
         return 'Arc(%r)' % (self.cell.v,)
 
     def ite(self, c, other):
-        if other.cell is self.cell:
+        if isinstance(other, ArcCell) and other.cell is self.cell:
             return self
-        return ArcCell(Cell(ite_val(c, self.cell.v, other.cell.v), 'arc-ite'))
+        return ArcIte(c, self, other)
 
     def eq(self, other):
         return eq_val(self.cell.v, other.cell.v)
@@ -40,6 +65,8 @@ class ArcTok(Model):
         return Loc(Cell(ip.ctx.tok_kinds[self.kind](ip, self.tok), '%s#tok' % self.kind))
 
     def ite(self, c, other):
+        if not isinstance(other, ArcTok):
+            return ArcIte(c, self, other)
         return ArcTok(z3.If(c, self.tok, other.tok), self.kind)
 
     def eq(self, other):
